@@ -97,9 +97,54 @@ structure Txn where
   method : String
   parts : List Part                      -- `splitURL (APIStream.GetURL())`
   headers : List (String × String)       -- request header map (keys as received)
-  query : List (String × String)         -- parsed query string, in order
+  query : List (String × String)         -- `parseQuery` of the raw query string: the pairs `Query()` keeps
   status : Nat
 deriving Repr
+
+/-! ### the raw query string (net/url `URL.Query()` = `ParseQuery` with its error ignored) -/
+
+def hexDigit? (c : Char) : Option Nat :=
+  if '0' ≤ c ∧ c ≤ '9' then some (c.toNat - 48)
+  else if 'a' ≤ c ∧ c ≤ 'f' then some (c.toNat - 87)
+  else if 'A' ≤ c ∧ c ≤ 'F' then some (c.toNat - 55)
+  else none
+
+/-- `url.QueryUnescape`: `%XX` decoded, `+` is a space; `none` = `EscapeError` (a `%` not followed by two
+    hex digits).  Decoded bytes are taken as characters (the generator stays below 0x80). -/
+def queryUnescape : List Char → Option (List Char)
+  | [] => some []
+  | '%' :: a :: b :: rest =>
+    match hexDigit? a, hexDigit? b with
+    | some x, some y => (queryUnescape rest).map (Char.ofNat (x * 16 + y) :: ·)
+    | _, _ => none
+  | '%' :: _ => none
+  | '+' :: rest => (queryUnescape rest).map (' ' :: ·)
+  | c :: rest => (queryUnescape rest).map (c :: ·)
+
+/-- first `=` : `strings.Cut(pair, "=")` -/
+def cutEq : List Char → List Char × List Char
+  | [] => ([], [])
+  | '=' :: rest => ([], rest)
+  | c :: rest => let (k, v) := cutEq rest; (c :: k, v)
+
+/-- One `&`-separated piece as the loop of `url.parseQuery` treats it: `none` = the piece contributes
+    nothing (empty piece; `;` anywhere in it; bad escape in the key or in the value — `parseQuery` records the
+    error and CONTINUES with the next piece, and `URL.Query()` discards the error). -/
+def parsePair (piece : String) : Option (String × String) :=
+  let cs := piece.toList
+  if cs.isEmpty then none
+  else if cs.contains ';' then none
+  else
+    let (k, v) := cutEq cs
+    match queryUnescape k, queryUnescape v with
+    | some k', some v' => some (String.ofList k', String.ofList v')
+    | _, _ => none
+
+/-- the pairs `Query()` keeps, in order (a Go `url.Values`: per key the values in order; `Get` = the first) -/
+def parsePieces (pieces : List String) : List (String × String) := pieces.filterMap parsePair
+
+/-- `ParsedURL.Query()` of the raw query string. -/
+def parseQuery (raw : String) : List (String × String) := parsePieces (raw.splitOn "&")
 
 /-- Go map lookup `req.Headers[k]` (first binding; the map has one binding per key). -/
 def assocFind (k : String) : List (String × String) → Option String
